@@ -17,6 +17,7 @@ import (
 
 // Invoke is logged from inside a generated route function.
 type Invoke struct {
+	Body      string            `json:"body,omitempty"` // what the handler read from the request body (BuildOpts.ReadBody)
 	RID       int               `json:"rid"`
 	Params    map[string]string `json:"params"`
 	SelPath   string            `json:"sel_path"`
@@ -220,6 +221,7 @@ type BuildOpts struct {
 	WriteBody  bool
 	Switched   bool // configure the other router first, then the wanted one (router switching must be unobservable)
 	Entity     bool // route functions answer with WriteEntity (content negotiation) instead of raw bytes
+	ReadBody   bool // route functions read the raw request body and log it
 }
 
 // EntityDoc is what entity-writing route functions return.
@@ -237,9 +239,14 @@ const MarkerBase = 100000
 
 func routeFunc(id int, entity ...bool) restful.RouteFunction {
 	writeEntity := len(entity) > 0 && entity[0]
+	readBody := len(entity) > 1 && entity[1]
 	return func(req *restful.Request, resp *restful.Response) {
 		o := ObsOf(req.Request)
 		iv := Invoke{RID: id, Params: map[string]string{}, SelRID: -1}
+		if readBody && req.Request.Body != nil {
+			b, _ := io.ReadAll(io.LimitReader(req.Request.Body, 256))
+			iv.Body = string(b)
+		}
 		for k, v := range req.PathParameters() {
 			iv.Params[k] = v
 		}
@@ -302,7 +309,7 @@ func condFunc(rid, idx int, hdr string) restful.RouteSelectionConditionFunction 
 
 // AddRoute registers one RouteSpec on a WebService.
 func AddRoute(ws *restful.WebService, rs *RouteSpec, o BuildOpts) {
-	b := ws.Method(rs.Method).Path(rs.Render()).To(routeFunc(rs.ID, o.Entity)).Operation("r"+strconv.Itoa(rs.ID)).Metadata("rid", rs.ID)
+	b := ws.Method(rs.Method).Path(rs.Render()).To(routeFunc(rs.ID, o.Entity, o.ReadBody)).Operation("r"+strconv.Itoa(rs.ID)).Metadata("rid", rs.ID)
 	if rs.ViaSvc {
 		// the lists come from the WebService's defaults, which a RouteBuilder without own lists inherits when it is added
 		ws.Consumes(rs.Consumes...)
@@ -448,7 +455,14 @@ func HTTPRequest(req *Req, obs *Obs) *http.Request {
 		Body:       http.NoBody,
 	}
 	if req.BodyLen > 0 {
-		hr.Body = io.NopCloser(strings.NewReader(strings.Repeat("b", req.BodyLen)))
+		body := []byte(strings.Repeat("b", req.BodyLen))
+		if req.Body != nil {
+			body = req.Body
+		}
+		hr.Body = io.NopCloser(bytes.NewReader(body))
+		if req.Slow {
+			hr.Body = &slowReader{b: body}
+		}
 		hr.ContentLength = int64(req.BodyLen)
 		h.Set("Content-Length", strconv.Itoa(req.BodyLen))
 	}
@@ -457,6 +471,31 @@ func HTTPRequest(req *Req, obs *Obs) *http.Request {
 	}
 	return hr
 }
+
+// slowReader hands out a few bytes per Read and yields in between, so that concurrent readers interleave.
+type slowReader struct {
+	b []byte
+	i int
+}
+
+func (s *slowReader) Read(p []byte) (int, error) {
+	if s.i >= len(s.b) {
+		return 0, io.EOF
+	}
+	runtime.Gosched()
+	n := 9
+	if n > len(p) {
+		n = len(p)
+	}
+	if s.i+n > len(s.b) {
+		n = len(s.b) - s.i
+	}
+	copy(p, s.b[s.i:s.i+n])
+	s.i += n
+	return n, nil
+}
+
+func (s *slowReader) Close() error { return nil }
 
 // Run sends the request through the entry point and returns what was observed.
 func Run(c *restful.Container, entry string, req *Req) (out *Outcome) {
